@@ -21,7 +21,7 @@ mkdir -p "$OUT/miri" "$OUT/replays"
 
 miri() { # miri <miri-seed> <preemption-rate> <args...>
   local ms=$1 pr=$2; shift 2
-  MIRIFLAGS="-Zmiri-disable-isolation -Zmiri-seed=$ms -Zmiri-preemption-rate=$pr" \
+  MIRIFLAGS="${MIRI_ISOLATION:-} -Zmiri-seed=$ms -Zmiri-preemption-rate=$pr" \
     cargo +nightly miri run --offline -q -- "$@"
 }
 
@@ -41,7 +41,8 @@ if [ "$MODE" = replay ]; then
   if [ "$BTO" -gt "$BFROM" ]; then
     miri "$MS" "$PR" miri-run "$BSEED" "$BFROM" "$BTO" >"$OUT/miri/replay.log" 2>&1; CODE=$?
   else
-    miri "$MS" "$PR" miri-run "$SEED" 0 0 "$F" >"$OUT/miri/replay.log" 2>&1; CODE=$?
+    # legacy single-scenario file: needs host file access
+    MIRI_ISOLATION=-Zmiri-disable-isolation miri "$MS" "$PR" miri-run "$SEED" 0 0 "$F" >"$OUT/miri/replay.log" 2>&1; CODE=$?
   fi
   grep -E "MISMATCH|Undefined Behavior|^error" "$OUT/miri/replay.log" | cut -c1-600 | head -5
   if [ $CODE -ne 0 ]; then echo "VIOLATION property=C17 replay=$F"; exit 1; fi
@@ -49,8 +50,8 @@ if [ "$MODE" = replay ]; then
 fi
 
 case "$MODE" in
-  quick) PROCS=16; PER=1; ROUNDS=2;;      # 32 jobs x (1 general + 2 high-contention) = 96 scenario runs
-  thorough) PROCS=16; PER=6; ROUNDS=10;;  # 960 indices = 2880 scenario runs
+  quick) PROCS=16; PER=1; ROUNDS=2;;      # 32 jobs x (1 general + 5 high-contention) = 192 scenario runs
+  thorough) PROCS=16; PER=3; ROUNDS=20;;  # 960 indices = 5760 scenario runs
   *) echo "usage: miri/run.sh build|quick|thorough|replay <file>"; exit 2;;
 esac
 T0=$(date +%s)
@@ -67,7 +68,7 @@ done
 export OUT SEED
 xargs -P "$PROCS" -L 1 bash -c '
   J=$0; FROM=$1; TO=$2; PR=$3; MS=$4
-  MIRIFLAGS="-Zmiri-disable-isolation -Zmiri-seed=$MS -Zmiri-preemption-rate=$PR" \
+  MIRIFLAGS="-Zmiri-seed=$MS -Zmiri-preemption-rate=$PR" \
     cargo +nightly miri run --offline -q -- miri-run "$SEED" "$FROM" "$TO" >"$OUT/miri/run-$J.log" 2>&1
   echo "EXIT $? miri_seed=$MS rate=$PR from=$FROM to=$TO" >>"$OUT/miri/run-$J.log"
 ' < "$JOBS"
@@ -94,7 +95,7 @@ for f in sorted(glob.glob(os.path.join(out, "miri", "run-*.log"))):
         ub = re.search(r"error: Undefined Behavior: (.*)", s)
         text = ub.group(1) if ub else "miri exited with %d: %s" % (code, s[-300:].replace("\n", " | "))
         done = len(oks)
-        idx = frm + done // 3  # the index that was running (3 scenario runs per index)
+        idx = frm + done // 6  # the index that was running (6 scenario runs per index)
         runs += 1
         cls = "data-race" if "ata race" in text else "miri-error"
         viol.append(dict(cls=cls, detail=text, idx=idx, miri_seed=ms, rate=rate, scenario=None, log=f, batch=dict(seed=seed, **{"from": frm, "to": to})))
@@ -122,7 +123,7 @@ for v in res["violations"]:
         # executed one after another on one thread: if the error persists it does not need concurrency
         # (single-threaded territory, C15: reported as a note); if it disappears it is a concurrency effect.
         b = v.get("batch") or {}
-        env = dict(os.environ, MIRIFLAGS="-Zmiri-disable-isolation -Zmiri-seed=%d -Zmiri-preemption-rate=%s" % (v["miri_seed"], v["rate"]))
+        env = dict(os.environ, MIRIFLAGS="-Zmiri-seed=%d -Zmiri-preemption-rate=%s" % (v["miri_seed"], v["rate"]))
         r = subprocess.run(["cargo", "+nightly", "miri", "run", "--offline", "-q", "--", "miri-run", str(b.get("seed", seed)), str(b.get("from", 0)), str(b.get("to", 0)), "-", "seq"], cwd=build, env=env, capture_output=True, text=True)
         if r.returncode != 0:
             print("NOTE: Miri reported a non-race error that persists without concurrency (not counted for C17) in index %d (miri seed %d): %s" % (v["idx"], v["miri_seed"], v["detail"][:300]))
